@@ -11,6 +11,7 @@ to `*x` (rounded to binary32 for `float`).
 -/
 namespace Percival.Model.ParsenumFloat
 open Percival.Spec.Numeral Percival.Spec.Parsenum Percival.Model.Strto Percival.Model.Strtod Percival.Model.Parsenum
+open Percival.Spec.Ieee (Fl binary32 binary64)
 
 inductive FTy
   | f32 | f64
